@@ -1,6 +1,6 @@
 (* C04 — Connection loss fails every call and hangs none. Theorems only; proofs in Proofs/ClientConnP.v *)
 From Coq Require Import List Bool Arith.
-From Sftp Require Import Conn.ClientConn Conn.ConnTrace Proofs.ClientConnP Proofs.ConnTraceP.
+From Sftp Require Import Conn.ClientConn Conn.ConnTrace Proofs.ClientConnP Proofs.ClientConnLiveP Proofs.ConnTraceP.
 Import ListNotations.
 
 (* for every interleaving of callers, deliveries, send failures and the receiver's failure: at most one result is ever
@@ -36,10 +36,37 @@ Theorem C04_accepted_trace_reachable : forall n tr cs, caccept_trace n tr = inl 
 Proof. exact accepted_conn_trace. Qed.
 Print Assumptions C04_accepted_trace_reachable.
 
-(* PARTIAL: the "at least once / in bounded time" half (every caller that is owed a result has it in its channel or an
-   entry that the receiver or the broadcast will serve; goroutines end; Wait and Close return) is not yet a theorem; it is
-   decided per run by family c04: the recorded server->client stream cut at every byte offset, with EOF and with an error,
-   with the writer failing at every write index, and stress runs, under 5 s watchdogs and goroutine counting. *)
+(* ===== the "at least once" half, at the level of the LTS ===== *)
+(* in every reachable state, a caller that is owed a result either has it in its channel already or still has its entry in
+   `inflight` - which a reply, a failed send or the broadcast will serve *)
+Theorem C04_owed_has_result_or_entry : forall n tr s, crun (cinit n) tr = Some s ->
+  forall c st i, cstate_of c (callers s) = Some st -> owed st i ->
+    In c (map fst (bufs s)) \/ In (i, Some c) (inflight s).
+Proof. exact linv_run. Qed.
+Print Assumptions C04_owed_has_result_or_entry.
+
+(* once the receiver has failed, every caller that is owed a result HAS it waiting in its channel ... *)
+Theorem C04_after_loss_all_notified : forall n tr s, crun (cinit n) tr = Some s -> closed s = true ->
+  forall c st i, cstate_of c (callers s) = Some st -> owed st i -> In c (map fst (bufs s)).
+Proof. exact after_loss_all_notified. Qed.
+Print Assumptions C04_after_loss_all_notified.
+
+(* ... so no call hangs: whatever it was doing, every caller that has not finished can take its own next step (at most
+   four remain: nextID, putChannel, send, take), and no reply can be delivered any more, so what it takes is an error *)
+Theorem C04_after_loss_every_caller_can_step : forall n tr s, crun (cinit n) tr = Some s -> closed s = true ->
+  forall c st, cstate_of c (callers s) = Some st ->
+    (exists k r, st = CDone k r) \/
+    exists l s', In l [NextID c; Put c; SendOK c; Take c] /\ cstep s l = Some s'.
+Proof. exact after_loss_every_caller_can_step. Qed.
+Print Assumptions C04_after_loss_every_caller_can_step.
+
+Theorem C04_after_loss_no_delivery : forall s k, closed s = true -> cstep s (Deliver k) = None.
+Proof. exact after_loss_no_delivery. Qed.
+Print Assumptions C04_after_loss_no_delivery.
+
+(* MODELLED, NOT PROVED ABOUT THE CODE: that recv() does fail when the transport dies (io.Reader contract), Go's scheduler
+   runs every goroutine, goroutines end, Wait/Close return - observed per run by families c04 and cct (watchdogs, goroutine
+   counts); the worker loops of multi-chunk transfers sit above this LTS (each chunk is one caller). *)
 Example C04_nonvacuous :
   exists s, crun (cinit 3) [NextID 0; NextID 1; Put 0; Put 1; SendOK 0; Deliver 1; RecvFail; SendFail 1; NextID 2; Put 2; Take 0; Take 1; Take 2] = Some s /\
             cstate_of 0 (callers s) = Some (CDone 1 (ROk 1)) /\ cstate_of 1 (callers s) = Some (CDone 2 RConnLost) /\
